@@ -99,6 +99,13 @@ def corpus():
         cs.append({"steps": [["new", "Table:t1"], ["new", "Table:t2"], ["new", "QueryBuilder"], _call(2, "from_", _r(0)),
                              _call(3, "select", _s("a")), _call(4, "join", _r(1)), _call(6, m, *a1), _call(6, m, *a2)],
                    "theme": "corpus", "twin": False, "repeats": []})
+    # ... and a statement that uses the first result as a sub-query follows it
+    for m, a1, a2 in (("on", [_crit("a", 1)], [_crit("b", 1)]), ("on_field", [_s("a")], [_s("b")]),
+                      ("using", [_s("a")], [_s("b")]), ("cross", [], [])):
+        cs.append({"steps": [["new", "Table:t1"], ["new", "Table:t2"], ["new", "QueryBuilder"], _call(2, "from_", _r(0)),
+                             _call(3, "select", _s("a")), _call(4, "join", _r(1)), _call(6, m, *a1),
+                             ["new", "QueryBuilder"], _call(7, "from_", _r(5)), _call(8, "select", _s("*")), _call(6, m, *a2)],
+                   "theme": "corpus", "twin": False, "repeats": []})
     # both at once: the Joiner's private query was handed out (j.query used as a WITH source) before j.X() renames the table
     for m, a in (("on", [_crit("a", 0)]), ("on_field", [_s("a")]), ("using", [_s("a")]), ("cross", [])):
         cs.append({"steps": [["new", "Table:t3"], ["new", "QueryBuilder"], _call(1, "from_", _r(0)), _call(2, "select", _s("*")),
@@ -156,7 +163,7 @@ def corpus():
 def gen_cases(rng, tier):
     from harness.c01 import gen
     _, tab = _table()
-    n = 260 if tier == "quick" else 4000
+    n = 260 if tier == "quick" else 2500
     out = []
     for _ in range(n):
         theme = gen.pick_theme(rng)
